@@ -196,6 +196,7 @@ func ManageDeployment(client runtimeclient.Client, daemonset *datadoghqv1alpha1.
 			runtimeclient.MatchingLabels{
 				datadoghqv1alpha1.ExtendedDaemonSetReplicaSetCanaryLabelKey: datadoghqv1alpha1.ExtendedDaemonSetReplicaSetCanaryLabelValue,
 				datadoghqv1alpha1.ExtendedDaemonSetReplicaSetNameLabelKey:   params.Replicaset.GetName(),
+				datadoghqv1alpha1.ExtendedDaemonSetNameLabelKey:             params.EDSName,
 			},
 		}
 		if err = client.List(context.TODO(), canaryPods, listOptions...); err != nil {
